@@ -1,5 +1,5 @@
 (* C01 — formatting preserves the syntax tree. Statements, `exact` proofs, pins, assumption reports. *)
-From TV Require Import Conv Format Render RenderProofs SeqProofs ConvProofs ParenProofs MarkupProofs MathProofs Post FlowProofs ListProofs ChainProofs.
+From TV Require Import Conv Format Render RenderProofs SeqProofs ConvProofs ParenProofs MarkupProofs MathProofs Post FlowProofs ListProofs ChainProofs Sig SigLayout SigTree.
 
 (* The full property mentions re-parsing; the parser is outside the model (DESIGN.md section 3), so the
    full statement is given over an abstract parser and an abstract skeleton. It is NOT proved: what is
@@ -136,3 +136,65 @@ Theorem C01_chain_stylist_conserves :
                    Forall2 seqs (flat_map cpush_docs (concat pss)) xs /\ kept sty0 x = kept sty0 (concat xs).
 Proof. intros. eapply chain_conserves; eassumption. Qed.
 Print Assumptions C01_chain_stylist_conserves.
+
+(* ---- token conservation by signature (Sig.v, SigLayout.v, SigTree.v) ----
+   The signature of a text is what is left when blanks and the delimiters ( ) [ ] { } $ , ; : are deleted.  A document
+   that passes `sig_check` (both branches of every flat_alt have the same signature, and the flat reading has the
+   signature of the source tree) has that signature on EVERY layout, so the rendered text - at any width - holds
+   exactly the source's other characters, in order.  `sig_check` is evaluated by the extracted model on every case of
+   the C01 check (obligation "signature certificate"), inside `sig_scope`. *)
+Theorem C01_every_layout_has_the_signature :
+  forall t d, sig_check t d = true -> forall x, seqs d x -> atoms_sig x = tsig t.
+Proof.
+  intros t d H x Hx. apply sig_check_spec in H. destruct H as [Hw He]. rewrite <- He. apply seqs_sig; assumption.
+Qed.
+Check C01_every_layout_has_the_signature :
+  forall t d, sig_check t d = true -> forall x, seqs d x -> atoms_sig x = tsig t.
+Print Assumptions C01_every_layout_has_the_signature.
+
+Theorem C01_rendered_text_has_the_signature :
+  forall swidth cfg t out n,
+    format_source swidth cfg t = FOk out n ->
+    exists d es, convert_root swidth cfg t = Ok (d, n) /\ render_events (max_width cfg) d = Some es /\
+                 out = strip (flatten_events es) /\
+                 (sig_check t d = true -> sig (flatten_events es) = tsig t).
+Proof.
+  intros swidth cfg t out n H. destruct (format_output_atoms swidth cfg t out n H) as (d & es & Hc & Hr & Ho & Hs & _).
+  exists d, es. repeat split; try assumption. intros Hk. rewrite flatten_events_sig.
+  apply (C01_every_layout_has_the_signature t d Hk). exact Hs.
+Qed.
+Check C01_rendered_text_has_the_signature :
+  forall swidth cfg t out n,
+    format_source swidth cfg t = FOk out n ->
+    exists d es, convert_root swidth cfg t = Ok (d, n) /\ render_events (max_width cfg) d = Some es /\
+                 out = strip (flatten_events es) /\
+                 (sig_check t d = true -> sig (flatten_events es) = tsig t).
+Print Assumptions C01_rendered_text_has_the_signature.
+
+(* the stylists' printers are homomorphisms for the signature: whatever style, fold style and comment placement *)
+Theorem C01_list_printer_signature :
+  forall swidth tab l sty, quiet sty ->
+    dsig (lst_print_doc swidth tab l sty) = isigs (l_items l) /\
+    (Forall (fun it => iwsig it = true) (l_items l) -> wsig (lst_print_doc swidth tab l sty) = true).
+Proof. intros. split; [apply lst_print_sig|apply lst_print_wsig]; assumption. Qed.
+Print Assumptions C01_list_printer_signature.
+
+Theorem C01_chain_printer_signature :
+  forall swidth tab ch sty d,
+    attached_ok false (ch_items ch) = true -> chain_print_doc swidth tab ch sty = Ok d ->
+    dsig d = csigs (ch_items ch) /\ (Forall (fun it => cwsig it = true) (ch_items ch) -> wsig d = true).
+Proof. exact chain_print_sig. Qed.
+Print Assumptions C01_chain_printer_signature.
+
+Theorem C01_plain_printer_signature :
+  forall swidth items ml,
+    dsig (plain_print_doc swidth items ml) = psigs items /\
+    (Forall (fun it => pwsig it = true) items -> wsig (plain_print_doc swidth items ml) = true).
+Proof. exact plain_print_sig. Qed.
+Print Assumptions C01_plain_printer_signature.
+
+(* non-vacuity: `#f(1,2)` passes the certificate; its signature is `#f12` *)
+Example C01_example_signature :
+  exists d n, convert_root (fun s => N.of_nat (length s)) CliGen.cfg_default ex_call = Ok (d, n) /\
+              sig_check ex_call d = true /\ tsig ex_call = [35; 102; 49; 50].
+Proof. eexists _, _. vm_compute. repeat split. Qed.
